@@ -197,7 +197,7 @@ def translate(repo, outdir):
         "(* generated on every run - per-run obligations about the regenerated tables *)\n"
         "From Coq Require Import List NArith ZArith Bool.\nImport ListNotations.\n"
         "From SAV.sql Require Import Params ParamsRun ParamsDict ParamsEscape ParamsGuard ParamsMain.\n"
-        "From SAV.props Require Import C04.\nRequire Import Gen.Gen_C04.\n\n"
+        "Require Import Gen.Gen_C04.\n\n"
         "(* the live escape table is the one the refutation witnesses were computed with *)\n"
         "Lemma gen_tab_same : gen_tab = sa_tab.\nProof. reflexivity. Qed.\n"
         "(* ... and satisfies the side conditions of the escape theorems *)\n"
@@ -206,16 +206,17 @@ def translate(repo, outdir):
         "(* BIND_TEMPLATES instantiate to the placeholder texts the model renders, for every name *)\n"
         "Lemma gen_templates_ok : forall n, map (fun t => pyfmt t n) gen_templates = model_templates n.\n"
         "Proof. intro n. cbn. rewrite ?app_nil_r. reflexivity. Qed.\n"
-        "(* the property theorems instantiated with the table the code has NOW *)\n"
+        "(* the property theorems (props/C04.v is stated with exactly these lemmas) instantiated with the table the\n"
+        "   code has NOW *)\n"
         "Theorem gen_c04_escaped_names_clean : forall n, needs_esc gen_tab (esc gen_tab n) = false.\n"
-        "Proof. exact (c04_escaped_name_needs_no_escape gen_tab gen_tab_closed). Qed.\n"
+        "Proof. exact (needs_esc_esc gen_tab gen_tab_closed). Qed.\n"
         "Theorem gen_c04_escape_collides : exists a b, a <> b /\\ esc gen_tab a = esc gen_tab b.\n"
-        "Proof. exact (c04_escape_not_injective_refuted gen_tab gen_tab_closed gen_tab_nontrivial). Qed.\n"
+        "Proof. exact (esc_not_injective gen_tab gen_tab_closed gen_tab_nontrivial). Qed.\n"
         "Theorem gen_c04_all_styles : forall lit empty ps inp, guard gen_tab inp = true ->\n"
         "  exists ts fp sp, run gen_tab lit empty ps inp = Ok (ts, fp) /\\ inline_spec lit empty inp = Some sp /\\\n"
         "                   inline ps ts fp = Some sp.\n"
-        "Proof. exact (c04_all_styles_guarded gen_tab). Qed.\n"
-        "Print Assumptions gen_c04_all_styles.\nPrint Assumptions gen_c04_escape_collides.\n"
+        "Proof. exact (all_styles gen_tab). Qed.\n"
+        "Print Assumptions gen_c04_all_styles.\n"
     )
     p = os.path.join(outdir, "Gen_C04.v")
     with open(p, "w") as fh:
@@ -667,7 +668,7 @@ SAFE_POOL = ["p", "q", "r", "a b", "pct%", "c:d", "(par)", "x[1]", "w.z w", "s",
 
 def gen_cases(rng, tier):
     recs = []
-    n = 1500 if tier == "thorough" else 330
+    n = 1500 if tier == "thorough" else 280
     for _ in range(n):
         recs.append((gen_recipe(rng), "random"))
     for _ in range(n // 2):
